@@ -106,6 +106,15 @@ pub enum Call {
         cap: usize,
         ids: Vec<usize>,
     },
+    /// one foreign activity on OTHER objects of the same thread (noise::disturb): another graph
+    /// that forms and collects groups, a parse / print / save / load / merge / script that fails, …
+    /// — never touches g, so the reference model does not move
+    Noise(u16),
+    /// the place in memory where g lives holds ANOTHER graph for a while: keep = g.clone();
+    /// g.clone_from(&other) (a chain over the low ids with everyday labels and data); the other
+    /// graph is queried there (kid, kids, v_print, slice, inspect, exports); g.clone_from(&keep).
+    /// Whatever remembers a graph by its address now remembers the wrong one.
+    Masquerade,
     /// g.merge(&h, left, h.root)
     Merge {
         h: TreeSpec,
@@ -144,6 +153,8 @@ impl Call {
             Call::SliceSome(v, p) => format!("slice_some({v},p#{p})"),
             Call::SliceAny(v) => format!("slice({v}) [through dangling edges too]"),
             Call::Checkpoint => "g.save(scratch)".into(),
+            Call::Masquerade => "keep=g.clone(); g.clone_from(&other); [queries on other at g's address]; g.clone_from(&keep)".into(),
+            Call::Noise(k) => format!("[foreign activity #{k} on other objects of this thread]"),
             Call::CloneInto { cap, ids } => format!("other=empty({cap})+{ids:?}; other.clone_from(&g); g=other"),
             Call::Merge { h, left } => format!(
                 "merge(h[{}],left={left},right={})",
